@@ -401,6 +401,14 @@ def deserialize_single_field(  # pylint: disable=too-many-branches
             value = ty(**source_val)
     elif isinstance(field, NoneField):
         raise ValueError(f"{name}: Got {wrap_val(source_val)}; Expected None")
+    elif isinstance(field, TypedField) and getattr(field, "_ty", "") in {
+        str,
+        int,
+        float,
+    }:
+        raise TypeError(
+            f"{name}: Expected {getattr(field, '_ty')}; Got {wrap_val(source_val)}"
+        )
     else:
         raise NotImplementedError(
             f"{name}: Got {wrap_val(source_val)}; Cannot deserialize value of type {field.__class__.__name__}. Are "
